@@ -45,11 +45,14 @@ def variant_task(payload):
         return res
     b_rep = b['report'].splitlines()
     b_out = b['hook']['out']
-    for label, raw in payload['variants']:
+    for variant in payload['variants']:
+        label, raw = variant[0], variant[1]
+        override = variant[2] if len(variant) > 2 else None     # client-side overrides: [[name, value], ...] in the order of the dict
+
         def job(_):
             def at_hook(m):
                 return {'out': snap.outputs(m)}
-            o = sim.simulate(None, at_hook=at_hook, want=('report',), raw_text=raw)
+            o = sim.simulate(None, at_hook=at_hook, want=('report',), raw_text=raw, params=override)
             if o.get('report'):
                 o['report'] = sim.strip_clock(o['report'])
             return o
@@ -161,6 +164,27 @@ def plan(tier, seed):
                 variants.append((f'duplicate:before{i}', text(lines[:i] + [ov] + lines[i:])))
                 variants.append((f'duplicate:first-line{i}', text([ov] + lines)))
             variants.append((f'duplicate:same-after{i}', text(lines + [l])))
+        # the client's "params override the base file" path: the file carries another value for some parameters (or does not mention them), the
+        # dictionary the true one; whatever the layout of the file's end, the dictionary's entries are later occurrences and govern
+        n = len(lines)
+        for pick in ([0, n - 1], [n - 1], [n // 2, n // 3], [n - 2, 1, n - 1]):
+            file_lines = list(lines)
+            over = []
+            for i in pick:
+                ov = other_value(lines[i])
+                name, _, val = lines[i].partition(',')
+                if ov is None:
+                    file_lines[i] = None        # not in the file at all; only the dictionary sets it
+                else:
+                    file_lines[i] = ov
+                over.append([name.strip(), val.strip()])
+            fl = [l for l in file_lines if l is not None]
+            for oi, order in enumerate((over, over[::-1])):
+                if oi and len(over) < 2:
+                    continue
+                for lay, raw in (('lf', text(fl)), ('no-final-newline', '\n'.join(fl)), ('crlf', text(fl, '\r\n')), ('crlf-no-final-newline', '\r\n'.join(fl)),
+                                 ('blank-tail', text(fl) + '\n\n'), ('comment-tail-no-newline', text(fl) + '# end')):
+                    variants.append((f'override:{"-".join(map(str, pick))}/{oi}/{lay}', raw, order))
         for i in range(0, len(variants), B):
             P.append({'id': 'full/' + fid, 'base': lines, 'variants': variants[i:i + B]})
     return P
@@ -173,7 +197,8 @@ def run(tier, seed, budget=None):
               '(quick: every 6th permutation for two of them); for full-size inputs (3; thorough 5): reversal, both sorts, all rotations, all adjacent '
               'transpositions, every single-line move to front/back; decorations on all lines at once and on each line singly (blanks, tabs, blanks around '
               'commas, five comment-field styles, CR, comment lines with each prefix, blank lines, missing final newline); a duplicate with a different '
-              'in-range value inserted before each line / at the top (last occurrence governs) and an identical duplicate appended. Oracle: computed '
+              'in-range value inserted before each line / at the top (last occurrence governs) and an identical duplicate appended; the override '
+              'dictionary of the client on top of a base file (4 choices of overridden lines x 2 dictionary orders x 6 layouts of the end of the file). Oracle: computed '
               'results bit-identical and report text identical (clock lines removed)'),
         assumptions=['duplicate-with-different-value is not applied to the structural options that Model.__init__ reads from the raw input before modules exist',
                      'trailing comments are tested in the comma-separated styles the shipped examples use'])
